@@ -81,6 +81,9 @@ const TAU: f64 = 1e-8;
 /// C05 invariant on one snapshot
 pub fn cache_sound(s: &Snap) -> Vec<(String, String)> {
     let mut errs = vec![];
+    if let Some(m) = s.nonfinite.iter().find(|m| m.contains("witness")) {
+        errs.push(("nonfinite_witness".into(), m.clone()));
+    }
     let tol = Q::from_f64(TAU + 1e-12);
     for (i, n) in &s.nodes {
         match &n.state {
@@ -386,9 +389,11 @@ pub fn run_c05(tier: Tier) -> Report {
     rep.absorb(total);
     let mg = mirror_grid(tier);
     rep.absorb(mg);
+    let wf = super::c11::cache_under_witness_faults(tier);
+    rep.absorb(wf);
     let tr = rep.coverage.get("transitions").and_then(|v| v.as_u64()).unwrap_or(0);
     rep.set("traces_validated_against_impl", tr);
-    rep.set("bound", format!("the C04 history exploration (<= {} operations) with the cache invariant evaluated on every node of every reached state; mirror_points on an exhaustive grid (1-2 dim polytopes with <= 3 rows, 1-2 start points from a 5-point lattice per axis, n_iterations in {{1,2,8,20}})", if tier == Tier::Quick { 3 } else { 4 }));
+    rep.set("bound", format!("the C04 history exploration (<= {} operations) with the cache invariant evaluated on every node of every reached state; mirror_points on an exhaustive grid (1-2 dim polytopes with <= 3 rows, 1-2 start points from a 5-point lattice per axis, n_iterations in {{1,2,8,20}}); the witness-repair branch is driven by every single witness fault (solver point moved 1e-6 / 1e-3 beyond the tightest row, or by +1e3 / -1e2 / +3 in every coordinate) at every LP call of ~400 pruning runs", if tier == Tier::Quick { 3 } else { 4 }));
     rep.assume("witness containment tolerance 1e-8 (+1e-12 for the f64 evaluation the library itself performs); 'infeasible' must not be fat (margin 1e-6)");
     rep
 }
